@@ -14,7 +14,7 @@ pub const MOD: u64 = 251;
 #[derive(Default)]
 pub struct Ctx<'h> {
     /// called at the end of every closure call, while the call's arguments are still held
-    pub hook: Option<&'h mut dyn FnMut()>,
+    pub hook: Option<&'h mut dyn FnMut(&str)>,
     pub calls: Vec<String>,
     cur: Vec<String>,
     pub n: usize,
@@ -75,7 +75,8 @@ impl<'h> Ctx<'h> {
         let k = self.n;
         self.n += 1;
         if let Some(h) = self.hook.as_mut() {
-            (*h)();
+            let last = self.calls.last().cloned().unwrap_or_default();
+            (*h)(&last);
         }
         if self.pan == Some(k) {
             panic!("injected closure fault");
